@@ -97,6 +97,41 @@ func (hs *hintStore) get(name string) map[string]bool {
 	return m
 }
 
+func hashSet(l []string) map[string]bool {
+	m := map[string]bool{}
+	for _, h := range l {
+		m[h] = true
+	}
+	return m
+}
+
+// lookup: the hint of an obligation (nil if none) and whether the file knows the obligation at all ("-" entries
+// record that no usable hint exists)
+func (hs *hintStore) lookup(name string) (map[string]bool, bool) {
+	if hs == nil {
+		return nil, false
+	}
+	hs.mu.Lock()
+	l, ok := hs.hints[name]
+	if !ok {
+		nk := normKey(name)
+		for k, v := range hs.hints {
+			if normKey(k) == nk {
+				l, ok = v, true
+				break
+			}
+		}
+	}
+	hs.mu.Unlock()
+	if !ok {
+		return nil, false
+	}
+	if len(l) == 1 && l[0] == "-" {
+		return nil, true
+	}
+	return hashSet(l), true
+}
+
 // getUnion: every hypothesis any obligation of the function ever needed (fallback when the obligation itself has no
 // usable hint, e.g. after an edit that added or reordered obligations)
 func (hs *hintStore) getUnion(fn string) map[string]bool {
